@@ -2,7 +2,8 @@
 // guard, ScheduleWakeAt/ScheduleWakeNow, notifications, Handle) to the
 // implementation: real EventDrivenComponents with scripted processors run in a
 // real timing.SerialEngine together with scripted environment events; the run
-// is projected onto every component and replayed by the model.
+// is projected onto every component (processor invocations are recorded by the
+// processors themselves) and replayed by the model.
 package c13
 
 import (
@@ -26,6 +27,9 @@ import (
 // With a network (input.Net): 6 component Src sends a message from its port to
 // component Tgt's port (if CanSend), 7 component Src retrieves one incoming
 // message.  Inside a processor script Src is the component itself.
+// 8: poke the zero-latency peer V: environment entry Env[V] (marked Peer, not
+// scheduled at start) is scheduled at the CURRENT instant, so its requests are
+// made in the same instant, after the handler that poked it has returned.
 type req struct {
 	Tgt int    `json:"tgt"`
 	K   int    `json:"k"`
@@ -49,6 +53,7 @@ type compIn struct {
 type envIn struct {
 	T    uint64 `json:"t"`
 	Sec  bool   `json:"sec,omitempty"`
+	Peer bool   `json:"peer,omitempty"` // scheduled only when poked (req K=8), at the instant of the poke
 	Reqs []req  `json:"reqs"`
 }
 
@@ -65,6 +70,7 @@ type evRec struct {
 	T    uint64 `json:"t"`
 	Obs  string `json:"obs,omitempty"`
 	ST   uint64 `json:"st,omitempty"`
+	In   bool   `json:"in_run,omitempty"` // made from inside this component's own processor run (statistics only)
 }
 
 type spec struct {
@@ -78,14 +84,15 @@ type state struct {
 type edc = modeling.EventDrivenComponent[spec, state, modeling.None]
 
 type compRT struct {
-	name string
-	in   compIn
-	c    *edc
-	hist []*evRec
-	cur  *evRec
-	w    *world
-	idx  int
-	port messaging.Port
+	name  string
+	in    compIn
+	c     *edc
+	hist  []*evRec
+	cur   *evRec
+	w     *world
+	idx   int
+	port  messaging.Port
+	inRun bool
 }
 
 type world struct {
@@ -106,7 +113,7 @@ func (s *sched) RegisterHandler(name string, h timing.Handler) { s.w.eng.Registe
 func (s *sched) Schedule(e timing.Event) {
 	c := s.c
 	if c.cur == nil || c.cur.Obs != "drop" {
-		r := &evRec{Kind: "req", K: 1, T: uint64(s.w.eng.CurrentTime()), Obs: "drop"}
+		r := &evRec{Kind: "req", K: 1, T: uint64(s.w.eng.CurrentTime()), Obs: "drop", In: c.inRun}
 		c.hist = append(c.hist, r)
 		c.cur = r
 	}
@@ -118,8 +125,13 @@ func (s *sched) Schedule(e timing.Event) {
 type processor struct{ rt *compRT }
 
 func (p *processor) Process(c *edc, now timing.VTimeInPicoSec) bool {
+	// the observable of the property: a processor invocation and its time (not
+	// the dispatch of a timer event, which need not reach the processor)
+	p.rt.hist = append(p.rt.hist, &evRec{Kind: "run", T: uint64(now)})
 	k := c.State.Runs
 	c.State.Runs++
+	p.rt.inRun = true
+	defer func() { p.rt.inRun = false }()
 	if k < len(p.rt.in.Runs) {
 		for _, q := range p.rt.in.Runs[k] {
 			q.Src = p.rt.idx
@@ -140,7 +152,7 @@ type owner struct {
 
 func (o *owner) notify(k int, f func()) {
 	c := o.c
-	r := &evRec{Kind: "req", K: k, T: uint64(c.w.eng.CurrentTime()), Obs: "drop"}
+	r := &evRec{Kind: "req", K: k, T: uint64(c.w.eng.CurrentTime()), Obs: "drop", In: c.inRun}
 	c.hist = append(c.hist, r)
 	saved := c.cur
 	c.cur = r
@@ -162,6 +174,14 @@ func (w *world) buildNet() {
 }
 
 func (w *world) do(q req) {
+	if q.K == 8 {
+		if q.V < uint64(len(w.in.Env)) && w.in.Env[q.V].Peer {
+			ev := envEvent{EventBase: timing.MakeEventBase(w.eng.CurrentTime(), "env"), idx: int(q.V)}
+			ev.Secondary = w.in.Env[q.V].Sec
+			w.eng.Schedule(ev)
+		}
+		return
+	}
 	if q.K >= 6 {
 		if w.in.Net == nil || q.Src < 0 || q.Src >= len(w.comps) {
 			return
@@ -183,7 +203,7 @@ func (w *world) do(q req) {
 	}
 	c := w.comps[q.Tgt]
 	now := uint64(w.eng.CurrentTime())
-	r := &evRec{Kind: "req", T: now, Obs: "drop"}
+	r := &evRec{Kind: "req", T: now, Obs: "drop", In: c.inRun}
 	switch q.K {
 	case 0:
 		r.K, r.Arg = 0, q.V
@@ -243,8 +263,7 @@ func (h *hook) Func(ctx hooking.HookCtx) {
 	_, isTimer := e.(modeling.TimerFiredEvent)
 	for _, c := range h.w.comps {
 		if isTimer && e.HandlerID() == c.name {
-			c.hist = append(c.hist, &evRec{Kind: "run", T: t})
-			continue
+			continue // its own timer: the run is recorded by the processor itself
 		}
 		if n := len(c.hist); n > 0 && c.hist[n-1].Kind == "adv" && c.hist[n-1].T == t {
 			continue
@@ -276,6 +295,9 @@ func execute(in input) obsOut {
 	}
 	w.eng.AcceptHook(&hook{w})
 	for i, e := range in.Env {
+		if e.Peer {
+			continue
+		}
 		ev := envEvent{EventBase: timing.MakeEventBase(timing.VTimeInPicoSec(e.T), "env"), idx: i}
 		ev.Secondary = e.Sec
 		w.eng.Schedule(ev)
@@ -325,11 +347,12 @@ func run(raw json.RawMessage) (hx.Case, error) {
 	c := hx.Case{Obs: o}
 	var comps []string
 	drops, earlier, later, equal, notif, runs, spurious := 0, 0, 0, 0, 0, 0, 0
+	afterRun, afterRunLater := 0, 0
 	for _, h := range o.Hist {
 		evs := make([]string, len(h))
 		pending := map[uint64]int{}
-		var lastSched uint64
-		has := false
+		var lastSched, lastRun uint64
+		has, ran := false, false
 		for j, r := range h {
 			evs[j] = coqEv(r)
 			switch r.Kind {
@@ -337,6 +360,7 @@ func run(raw json.RawMessage) (hx.Case, error) {
 				runs++
 				pending[r.T]--
 				has = false
+				lastRun, ran = r.T, true
 				for _, n := range pending {
 					if n > 0 {
 						spurious++ // an older, superseded timer is still queued
@@ -349,6 +373,15 @@ func run(raw json.RawMessage) (hx.Case, error) {
 				}
 				if r.Obs == "drop" {
 					drops++
+				}
+				if r.Obs == "sched" && !r.In && ran && r.T == lastRun && r.ST == r.T {
+					afterRun++ // asked for "now" after the run of this instant had returned
+					for st, n := range pending {
+						if n > 0 && st > r.T {
+							afterRunLater++
+							break
+						}
+					}
 				}
 				if r.Obs == "sched" {
 					if has && r.ST < lastSched {
@@ -377,6 +410,8 @@ func run(raw json.RawMessage) (hx.Case, error) {
 	tag(later > 0, "request:later-than-pending(dropped)")
 	tag(equal > 0, "request:equal-to-pending(dropped)")
 	tag(notif > 0, "notification")
+	tag(afterRun > 0, "wake-for-now-after-the-run-of-the-same-instant")
+	tag(afterRunLater > 0, "wake-for-now-after-the-run-of-the-same-instant(later-wake-up-pending)")
 	tag(spurious > 0, "superseded-timer-still-queued")
 	tag(!o.Completed, "run-aborted(request-in-the-past)")
 	tag(len(in.Comps) > 1, "multi-component")
@@ -398,8 +433,41 @@ func genScript(r *hx.Rand, big bool) input {
 		in.Net = &netIn{F: []uint64{1_000_000_000, 1_000_000_000, 700_000_000, 100_000_000_000}[r.Intn(4)],
 			InCap: r.Range(1, 2), OutCap: r.Range(1, 3)}
 	}
+	// zero-latency peers (Env[0..npeer-1]): poked by a processor or an environment
+	// event, they make their requests in the same instant, after the poking handler
+	npeer := 0
+	if r.Chance(2, 5) {
+		npeer = r.Range(1, 2)
+	}
+	for i := 0; i < npeer; i++ {
+		e := envIn{Peer: true, Sec: r.Chance(1, 3)}
+		for j, n := 0, r.Range(1, 2); j < n; j++ {
+			q := req{Tgt: r.Intn(nc), Src: r.Intn(nc)}
+			switch r.Pick(2, 3, 3, 2, 1) {
+			case 0:
+				q.K = 1
+			case 1:
+				q.K = 2
+			case 2:
+				q.K = 3
+			case 3:
+				q.K, q.V = 4, 0
+			default:
+				q.K, q.V = 4, []uint64{1, scale, r.U64n(3 * scale)}[r.Intn(3)]
+			}
+			if net && r.Chance(1, 3) {
+				q.K = 6 + r.Pick(3, 2)
+			}
+			e.Reqs = append(e.Reqs, q)
+		}
+		in.Env = append(in.Env, e)
+	}
 	mkReq := func(self int, base uint64) req {
 		q := req{Tgt: r.Intn(nc), Src: r.Intn(nc)}
+		if npeer > 0 && r.Chance(1, 6) {
+			q.K, q.V = 8, uint64(r.Intn(npeer))
+			return q
+		}
 		if net && r.Chance(1, 2) {
 			q.K = 6 + r.Pick(3, 2)
 			return q
@@ -465,11 +533,61 @@ func genScript(r *hx.Rand, big bool) input {
 	return in
 }
 
+// sameInstant: wake requests that reach a component at instant T AFTER its
+// processor has already run at T (they must make it run again at T).
+func sameInstant() []input {
+	var out []input
+	// the processor's run at 100 pokes a zero-latency peer (primary or secondary),
+	// which then raises the request at 100; with and without a later wake-up pending
+	for _, sec := range []bool{false, true} {
+		for _, later := range []uint64{0, 400} {
+			for _, q := range []req{{Tgt: 0, K: 2}, {Tgt: 0, K: 3}, {Tgt: 0, K: 1}, {Tgt: 0, K: 4, V: 0}} {
+				run0 := []req{{K: 8, V: 0}}
+				if later != 0 {
+					run0 = append(run0, req{Tgt: 0, K: 4, V: later})
+				}
+				out = append(out, input{
+					Comps: []compIn{{Runs: [][]req{run0, nil, nil}}},
+					Env:   []envIn{{Peer: true, Sec: sec, Reqs: []req{q}}, {T: 100, Reqs: []req{{Tgt: 0, K: 0, V: 100}}}},
+				})
+			}
+		}
+	}
+	// a peer COMPONENT handled later in the same instant: ED0's run at 50 wakes ED1 for
+	// "now"; ED1's run at 50 notifies ED0 (which has, or has not, a later wake-up pending)
+	for _, later := range []uint64{0, 70} {
+		run0 := []req{{Tgt: 1, K: 1}}
+		if later != 0 {
+			run0 = append(run0, req{Tgt: 0, K: 4, V: later})
+		}
+		out = append(out, input{
+			Comps: []compIn{{Runs: [][]req{run0, nil, nil}}, {Runs: [][]req{{{Tgt: 0, K: 2}}, {{Tgt: 0, K: 3}}}}},
+			Env:   []envIn{{T: 50, Reqs: []req{{Tgt: 0, K: 0, V: 50}}}},
+		})
+	}
+	// real ports, real 1 GHz connection: ED1's timer at 1000 (primary) runs before the
+	// connection's tick at 1000 (secondary), whose real Deliver raises NotifyRecv at 1000;
+	// ED0 sends from its run at 1000 with a full outgoing buffer: the tick's retrieval
+	// raises NotifyPortFree at 1000 after ED0's run
+	for _, later := range []uint64{0, 5000} {
+		run1 := []req{{K: 7}}
+		run0 := []req{{Tgt: 1, K: 6}}
+		if later != 0 {
+			run1 = append(run1, req{Tgt: 1, K: 4, V: later})
+			run0 = append(run0, req{Tgt: 0, K: 4, V: later})
+		}
+		out = append(out, input{Net: &netIn{F: 1_000_000_000, InCap: 2, OutCap: 1},
+			Comps: []compIn{{Runs: [][]req{run0, {{Tgt: 1, K: 6}}, nil}}, {Runs: [][]req{run1, {{K: 7}}, {{K: 7}}, {{K: 7}}}}},
+			Env:   []envIn{{T: 1, Reqs: []req{{Tgt: 1, K: 6, Src: 0}, {Tgt: 1, K: 0, V: 1000}, {Tgt: 0, K: 0, V: 1000}}}}})
+	}
+	return out
+}
+
 func directed() []input {
 	one := func(env ...envIn) input { return input{Comps: []compIn{{}}, Env: env} }
 	wa := func(v uint64) req { return req{Tgt: 0, K: 0, V: v} }
 	top := ^uint64(0)
-	return []input{
+	return append(sameInstant(), []input{
 		// later, equal, earlier, repeated requests
 		one(envIn{T: 0, Reqs: []req{wa(100), wa(200), wa(100), wa(50), wa(50), wa(70), wa(10), wa(0)}}),
 		// earlier request supersedes; the old timer still fires; a request made between the two runs
@@ -492,7 +610,7 @@ func directed() []input {
 		// two components notifying each other from their processors
 		{Comps: []compIn{{Runs: [][]req{{{Tgt: 1, K: 2, V: 0}}, {{Tgt: 1, K: 0, V: 40}, {Tgt: 1, K: 0, V: 30}}, nil}}, {Runs: [][]req{{{Tgt: 0, K: 3, V: 0}, {Tgt: 0, K: 4, V: 5}}, {{Tgt: 0, K: 2, V: 0}}, nil, nil}}},
 			Env: []envIn{{T: 2, Reqs: []req{{Tgt: 0, K: 2, V: 0}}}, {T: 30, Sec: true, Reqs: []req{{Tgt: 1, K: 1, V: 0}, {Tgt: 0, K: 0, V: 30}}}}},
-	}
+	}...)
 }
 
 func gen(r *hx.Rand, tier string) []json.RawMessage {
@@ -552,11 +670,14 @@ func init() {
 		Imports: "From Akita Require Import Lib.Base C13.Model C13.Exec.",
 		Rule: "directed histories (later/equal/earlier/repeated ScheduleWakeAt, superseded timer still firing, notifications with a " +
 			"later or same-instant wake-up pending, self re-arming processor, wake-up at MaxUint64, request in the past, two components " +
-			"notifying each other) plus random scripts: 1-3 EventDrivenComponents whose k-th processor run issues 0+ requests " +
+			"notifying each other; wake requests of every kind reaching a component at instant T after its run at T: from a poked " +
+			"zero-latency primary/secondary peer, from a peer component handled later in the instant, from a real connection tick's " +
+			"Deliver / outgoing retrieval ordered after the component's timer, each with and without a later wake-up pending) plus random scripts: 1-3 EventDrivenComponents whose k-th processor run issues 0+ requests " +
 			"(absolute time, now+d with d in {0,1,scale,random}, WakeNow, NotifyRecv, NotifyPortFree) on itself or others, and 1-30 " +
 			"primary/secondary environment events issuing 1-5 requests; 2/5 of the scripts add real messaging ports (capacity 1-3) " +
 			"and a real noc/directconnection (0.7/1/100 GHz) so that NotifyRecv/NotifyPortFree come from real sends, deliveries and " +
-			"retrievals; environment events issue 1-5 requests (1/4 repeated), time scale 10/10^3/10^6/2^40 ps; 1/25 scripts " +
+			"retrievals; 2/5 of the scripts have 1-2 zero-latency peers that processors and environment events poke (1/6 of the " +
+			"requests) and that raise their requests in the same instant after the poking handler; environment events issue 1-5 requests (1/4 repeated), time scale 10/10^3/10^6/2^40 ps; 1/25 scripts " +
 			"end with a request in the past. Non-trivial: an earlier request superseded a pending wake-up, the guard dropped a " +
 			"request and the processor ran >= 3 times. Distinct = distinct input hash.",
 		Gen: gen, Run: run, Shrink: shrink,
